@@ -95,7 +95,7 @@ def tie_T2():
     from ..py2coq import tok2
     core = os.path.join(C.REPO, "auditok", "core.py")
     here = os.path.join(C.VERIF, "harness", "py2coq")
-    deps = [core] + [os.path.join(here, f) for f in ("tok2.py", "pure.py", "TokTie2.v", "TieTac.v")] + [os.path.join(C.COQ, "Tok", "Model.v"), os.path.join(C.COQ, "Base", "PyList.v")]
+    deps = [core] + [os.path.join(here, f) for f in ("tok2.py", "tokroles.py", "tok_roles.json", "pure.py", "TokTie2.v", "TokTie2Aux.v", "TieTac.v")] + [os.path.join(C.COQ, "Tok", "Model.v"), os.path.join(C.COQ, "Base", "PyList.v")]
     sha = C.sha_files(deps)
     d = os.path.join(C.GEN, "tok2_" + sha)
     res = {"sha": sha, "obligations": ["TokTie2:tie2_reinit", "TokTie2:tie2_eod", "TokTie2:tie2_process", "TokTie2:tie2_post_process",
@@ -115,9 +115,12 @@ def tie_T2():
             open(marker, "w").write("FAIL " + res["detail"])
             return res
         open(os.path.join(d, "TokGen2.v"), "w").write(gen)
-        for f in ("TieTac.v", "TokTie2.v"):
+        has_aux = "(* AUX:" in gen
+        if not has_aux:
+            res["obligations"] = [o for o in res["obligations"] if o not in ("TokTie2:tie2_eod", "TokTie2:tie2_process", "TokTie2:tie2_post_process")]
+        for f in ("TieTac.v", "TokTie2.v", "TokTie2Aux.v"):
             shutil.copy(os.path.join(here, f), d)
-        for f in ("TieTac.v", "TokGen2.v", "TokTie2.v"):
+        for f in ("TieTac.v", "TokGen2.v", "TokTie2.v") + (("TokTie2Aux.v",) if has_aux else ()):
             rc, out = C.sh(["coqc", "-Q", C.COQ, "AV", "-Q", ".", "AVGen"] + C.COQ_WARN + [f], cwd=d, timeout=900)
             if rc != 0:
                 res["ok"] = False
